@@ -256,8 +256,8 @@ fn minimise(plan: &Plan, class: &str) -> Plan {
 
 /// key seeds whose generation takes a rare branch (a candidate rejected because F or G does
 /// not fit eight bits): shared with C05 (corpus/C05/seeds.txt)
-fn pinned() -> Vec<(usize, u64)> {
-    crate::props::c05::pinned()
+fn pinned() -> Vec<(usize, [u8; 32])> {
+    crate::props::c05::pinned_seeds()
 }
 
 // ---------------------------------------------------------------------------
@@ -394,8 +394,8 @@ fn dispatch(tier: Tier, seed: u64, run: u64) -> RunOutcome {
     let pins = pinned();
     let plan = if run >= r512 + r1024 {
         // pinned rare-branch key seeds: key exchange and a few messages
-        let (n, c) = pins[(run - r512 - r1024) as usize % pins.len().max(1)];
-        Plan { n, our_seed: crate::rng::counter_seed(c), peer_seed: rng.next_u64(), msgs: (0..3).map(|_| world::message(&mut rng)).collect(), stream: rng.next_u64() }
+        let (n, ks) = pins[(run - r512 - r1024) as usize % pins.len().max(1)];
+        Plan { n, our_seed: ks, peer_seed: rng.next_u64(), msgs: (0..3).map(|_| world::message(&mut rng)).collect(), stream: rng.next_u64() }
     } else {
         let n = if run < r1024 { 1024 } else { 512 };
         Plan {
